@@ -33,6 +33,7 @@ class Gen:
         self.counter = 0
         self.features = set()
         self.in_fn = 0
+        self.barrier = 0               # scopes below this index belong to forms that may have read their vars as earlier operands
 
     # ---- scope helpers
     def push(self):
@@ -50,7 +51,15 @@ class Gen:
         """vars that may be assigned here: only those of the current function level, and only in statement position, so that
         no operand read earlier in an expression can be changed by a later sibling (janet reads a local's slot when the
         instruction runs; the property does not settle that case, so it is not generated)."""
-        return [(n, e) for n, e in self.visible("var") if e == self.in_fn]
+        out = []
+        for n, e in self.visible("var"):
+            if e != self.in_fn:
+                continue
+            # innermost scope that declares n must lie inside the current operand-position block (if any)
+            idx = max(i for i, sc in enumerate(self.scopes) if n in sc)
+            if idx >= self.barrier:
+                out.append((n, e))
+        return out
 
     def visible(self, kind):
         seen = {}
@@ -123,7 +132,10 @@ class Gen:
             return ["let", B(n1, e1), body]
         if c < 0.58:
             self.push()
+            saved = self.barrier
+            self.barrier = len(self.scopes) - 1     # a (do ...) in expression position may be a later operand of a form that already read an outer var
             forms, fin = self.gen_block(depth - 1, r.choice([1, 2]))
+            self.barrier = saved
             self.pop()
             return ["do"] + forms + [fin]
         if c < 0.63:
@@ -468,7 +480,7 @@ TAILCALLS = r'''
 def run(ctx):
     exe = build.janet("plain")
     quick = ctx.tier == "quick"
-    nprog = 900 if quick else 50000
+    nprog = 900 if quick else 25000
     per = 10
     ctx.rule = ("typed random programs (def/var/set/do/if/while with break and nested while/fn/closures created in (nested) loops/shadowing/recursion, "
                 "destructuring, &opt & &keys &named parameters, let cond case and or for each loop(:range :in :when) seq try defer if-let -> quasiquote) "
